@@ -42,6 +42,12 @@ def plan(tier, seed):
     neg = cases.tok("lsn", s=-1, fs=1, tag="c16-psi-negated")
     opt = cases.tok("lsn", s=1, fs=1, tag="c16-reverse_current", reverse_current=True)
     pair(base, neg, "scaled", "psi negated directly vs base", pos_tol=1e-12)
+    # the same for a disconnected double null with unequal radial segment widths (the separatrix
+    # spacing is chosen among five segment averages, whose signs all flip with psi)
+    bpos = copy.deepcopy(b)
+    bpos["eq"]["s"] = -b["eq"]["s"]
+    bpos["tag"] = "c16-ldn-psi-negated"
+    pair(b, bpos, "scaled", "psi negated directly vs base (double null)", pos_tol=1e-12)
     pair(neg, opt, "identical", "reverse_current option = psi negated directly", ignore=["hypnotoad_inputs", "hypnotoad_inputs_yaml"])
     fneg = cases.tok("lsn", s=1, fs=-1, tag="c16-fpol-negated")
     fopt = cases.tok("lsn", s=1, fs=1, tag="c16-reverse_Bt", reverse_Bt=True)
@@ -67,5 +73,5 @@ def plan(tier, seed):
 
 
 def required(tier, classes, records):
-    pats = [("mirror single null", "mirror lsn"), ("mirror disconnected double null", "mirror ldn"), ("symmetric cdn", "symmetric cdn"), ("psi negated", "psi negated"), ("reverse_current", "reverse_current"), ("reverse_Bt", "reverse_Bt"), ("psi_divide_twopi", "psi_divide_twopi")]
+    pats = [("mirror single null", "mirror lsn"), ("mirror disconnected double null", "mirror ldn"), ("symmetric cdn", "symmetric cdn"), ("psi negated", "psi negated"), ("reverse_current", "reverse_current"), ("reverse_Bt", "reverse_Bt"), ("psi_divide_twopi", "psi_divide_twopi"), ("psi negated, double null", r"psi negated directly vs base \(double null\)")]
     return need_classes(classes, pats)
